@@ -67,6 +67,7 @@ def convSame (window y : List Rat) : List Rat :=
     non-finite value (`nan·0 = nan`, `inf − inf = nan`) -/
 def convSameOpt (window : List Rat) (y : List (Option Rat)) : List (Option Rat) :=
   let vals := convSame window (y.map (·.getD 0))
+  if y.all (·.isSome) then vals.map some else
   let bad := convSame (window.map (fun _ => 1)) (y.map (fun v => if v.isNone then 1 else 0))
   (vals.zip bad).map (fun p => if p.2 = 0 then some p.1 else none)
 
